@@ -1,10 +1,387 @@
 pub mod layer {
 use vstd::prelude::*;
+use vstd::arithmetic::div_mod::*;
 use crate::prelude::*;
 use crate::hoist::*;
 use crate::lemmas::*;
+use crate::swiftness_fri::formula::{fri_formula, fold_spec, log2_cs};
 verus! {
 broadcast use crate::prelude::group_felt;
 //@verbatim crates/fri/src/layer.rs struct FriLayerComputationParams,FriLayerQuery
+//@verbatim crates/fri/src/layer.rs enum FriError
+//@from_variants crates/fri/src/layer.rs FriError
+
+// ---------------------------------------------------------------------------------------------
+// SPEC (properties C06/C07): gathering a coset and computing the next layer, as mathematical walks
+pub struct FQ { pub index: nat, pub y: nat, pub xinv: nat }
+pub open spec fn fq(q: FriLayerQuery) -> FQ { FQ { index: q.index@, y: q.y_value@, xinv: q.x_inv_value@ } }
+pub open spec fn fqs(s: Seq<FriLayerQuery>) -> Seq<FQ> { s.map_values(|q: FriLayerQuery| fq(q)) }
+
+pub struct CosetOut { pub elems: Seq<nat>, pub xinv: nat, pub q: Seq<FQ>, pub w: Seq<nat> }
+/// positions i..n of the coset starting at heap position `start`: the value comes from the next query when its
+/// index is start+i (then x_inv of the coset start is query.x_inv * group[i]), otherwise from the next sibling leaf.
+pub open spec fn coset_walk(q: Seq<FQ>, w: Seq<nat>, start: nat, group: Seq<nat>, i: nat, n: nat, elems: Seq<nat>, xinv: nat) -> Option<CosetOut>
+    decreases n - i
+{
+    if i >= n { Some(CosetOut { elems, xinv, q, w }) }
+    else if q.len() > 0 && q[0].index == fadd(start, i) {
+        coset_walk(q.skip(1), w, start, group, i + 1, n, elems.push(q[0].y), fmul(q[0].xinv, group[i as int]))
+    } else if w.len() == 0 { None }
+    else { coset_walk(q, w.skip(1), start, group, i + 1, n, elems.push(w[0]), xinv) }
+}
+
+pub struct LayerOut { pub next: Seq<FQ>, pub indices: Seq<nat>, pub yvals: Seq<nat>, pub w: Seq<nat> }
+/// one FRI layer: repeatedly take the coset of the first remaining query (index / coset_size), gather it, fold it.
+pub open spec fn layer_walk(q: Seq<FQ>, w: Seq<nat>, cs: nat, group: Seq<nat>, e: nat, acc: LayerOut) -> Option<LayerOut>
+    decreases q.len()
+{
+    if q.len() == 0 { Some(LayerOut { next: acc.next, indices: acc.indices, yvals: acc.yvals, w: w }) }
+    else {
+        let ci = q[0].index / cs;
+        match coset_walk(q, w, fmul(ci, cs), group, 0, cs, Seq::<nat>::empty(), 0) {
+            None => None,
+            Some(o) => if o.q.len() >= q.len() { None } else {
+                layer_walk(o.q, o.w, cs, group, e, LayerOut {
+                    next: acc.next.push(FQ { index: ci, y: fold_spec(log2_cs(cs), o.elems, e, o.xinv), xinv: pow_mod(o.xinv, cs) }),
+                    indices: acc.indices.push(ci),
+                    yvals: acc.yvals + o.elems,
+                    w: acc.w })
+            },
+        }
+    }
+}
+pub open spec fn layer_spec(q: Seq<FQ>, w: Seq<nat>, cs: nat, group: Seq<nat>, e: nat) -> Option<LayerOut> {
+    layer_walk(q, w, cs, group, e, LayerOut { next: Seq::empty(), indices: Seq::empty(), yvals: Seq::empty(), w: Seq::empty() })
+}
+
+pub open spec fn cs_ok(cs: nat) -> bool { cs == 2 || cs == 4 || cs == 8 || cs == 16 }
+
+// ---- lemmas about the walks (verified) ------------------------------------------------------------
+pub proof fn lemma_coset_walk_shape(q: Seq<FQ>, w: Seq<nat>, start: nat, group: Seq<nat>, i: nat, n: nat, elems: Seq<nat>, xinv: nat)
+    requires i <= n
+    ensures
+        coset_walk(q, w, start, group, i, n, elems, xinv) is Some ==> ({
+            let o = coset_walk(q, w, start, group, i, n, elems, xinv)->Some_0;
+            &&& o.elems.len() == elems.len() + (n - i)
+            &&& o.q.len() <= q.len()
+            &&& o.w.len() <= w.len()
+            &&& o.q.len() + o.w.len() + (n - i) == q.len() + w.len()
+        }),
+    decreases n - i
+{
+    if i < n {
+        if q.len() > 0 && q[0].index == fadd(start, i) {
+            lemma_coset_walk_shape(q.skip(1), w, start, group, i + 1, n, elems.push(q[0].y), fmul(q[0].xinv, group[i as int]));
+        } else if w.len() > 0 {
+            lemma_coset_walk_shape(q, w.skip(1), start, group, i + 1, n, elems.push(w[0]), xinv);
+        }
+    }
+}
+
+/// the coset of the first query always consumes that query (so a layer terminates and x_inv is set)
+pub proof fn lemma_coset_consumes(q: Seq<FQ>, w: Seq<nat>, cs: nat, group: Seq<nat>, i: nat, elems: Seq<nat>, xinv: nat)
+    requires
+        q.len() > 0, cs_ok(cs), q[0].index < P,
+        i <= q[0].index % cs,
+    ensures
+        coset_walk(q, w, fmul(q[0].index / cs, cs), group, i, cs, elems, xinv) is Some ==>
+            coset_walk(q, w, fmul(q[0].index / cs, cs), group, i, cs, elems, xinv)->Some_0.q.len() < q.len(),
+    decreases cs - i
+{
+    let q0 = q[0].index;
+    let ci = q0 / cs;
+    let off = q0 % cs;
+    lemma_fundamental_div_mod(q0 as int, cs as int);
+    assert(ci * cs == cs * ci) by(nonlinear_arith);
+    assert(ci * cs <= q0);
+    lemma_small_mod(ci * cs, P);
+    let start = fmul(ci, cs);
+    assert(start == ci * cs);
+    assert(off < cs) by { lemma_mod_bound(q0 as int, cs as int); }
+    lemma_small_mod(start + i, P);
+    if i == off {
+        assert(q0 == fadd(start, i));
+        lemma_coset_walk_shape(q.skip(1), w, start, group, i + 1, cs, elems.push(q[0].y), fmul(q[0].xinv, group[i as int]));
+    } else {
+        assert(q0 != fadd(start, i));
+        if w.len() > 0 {
+            lemma_coset_consumes(q, w.skip(1), cs, group, i + 1, elems.push(w[0]), xinv);
+        }
+    }
+}
+
+pub open spec fn all_xinv_nonzero(q: Seq<FQ>) -> bool { forall|i: int| 0 <= i < q.len() ==> 0 < (#[trigger] q[i]).xinv < P && q[i].index < P }
+pub open spec fn group_nonzero(g: Seq<nat>) -> bool { g.len() >= 16 && forall|i: int| 0 <= i < 16 ==> 0 < #[trigger] g[i] < P }
+
+pub proof fn lemma_pow_nonzero(b: nat, e: nat)
+    requires 0 < b < P
+    ensures 0 < pow_mod(b, e) < P
+    decreases e
+{
+    broadcast use crate::prelude::axiom_field_integral;
+    if e == 0 { assert(1nat % P == 1) by(compute_only); } else { lemma_pow_nonzero(b, (e - 1) as nat); assert(pow_mod(b, e) == fmul(b, pow_mod(b, (e - 1) as nat))); }
+}
+
+/// once a query has been consumed the coset's x_inv is a product of non-zero elements
+pub proof fn lemma_coset_walk_xinv(q: Seq<FQ>, w: Seq<nat>, start: nat, group: Seq<nat>, i: nat, n: nat, elems: Seq<nat>, xinv: nat)
+    requires i <= n <= 16, all_xinv_nonzero(q), group_nonzero(group), 0 < xinv < P
+    ensures
+        coset_walk(q, w, start, group, i, n, elems, xinv) is Some ==> ({
+            let o = coset_walk(q, w, start, group, i, n, elems, xinv)->Some_0;
+            0 < o.xinv < P && all_xinv_nonzero(o.q)
+        }),
+    decreases n - i
+{
+    broadcast use crate::prelude::axiom_field_integral;
+    if i < n {
+        if q.len() > 0 && q[0].index == fadd(start, i) {
+            assert(all_xinv_nonzero(q.skip(1))) by { assert forall|k: int| 0 <= k < q.skip(1).len() implies 0 < (#[trigger] q.skip(1)[k]).xinv < P && q.skip(1)[k].index < P by { assert(q.skip(1)[k] == q[k + 1]); } }
+            lemma_coset_walk_xinv(q.skip(1), w, start, group, i + 1, n, elems.push(q[0].y), fmul(q[0].xinv, group[i as int]));
+        } else if w.len() > 0 {
+            lemma_coset_walk_xinv(q, w.skip(1), start, group, i + 1, n, elems.push(w[0]), xinv);
+        }
+    }
+}
+
+/// the coset of the first query: x_inv is non-zero at the end (a query is consumed, see lemma_coset_consumes)
+pub proof fn lemma_coset_first_xinv(q: Seq<FQ>, w: Seq<nat>, cs: nat, group: Seq<nat>, i: nat, elems: Seq<nat>, xinv: nat)
+    requires
+        q.len() > 0, cs_ok(cs), all_xinv_nonzero(q), group_nonzero(group),
+        i <= q[0].index % cs,
+    ensures
+        coset_walk(q, w, fmul(q[0].index / cs, cs), group, i, cs, elems, xinv) is Some ==> ({
+            let o = coset_walk(q, w, fmul(q[0].index / cs, cs), group, i, cs, elems, xinv)->Some_0;
+            0 < o.xinv < P && all_xinv_nonzero(o.q)
+        }),
+    decreases cs - i
+{
+    broadcast use crate::prelude::axiom_field_integral;
+    let q0 = q[0].index;
+    let ci = q0 / cs;
+    let off = q0 % cs;
+    lemma_fundamental_div_mod(q0 as int, cs as int);
+    assert(ci * cs == cs * ci) by(nonlinear_arith);
+    lemma_small_mod(ci * cs, P);
+    let start = fmul(ci, cs);
+    assert(off < cs) by { lemma_mod_bound(q0 as int, cs as int); }
+    lemma_small_mod(start + i, P);
+    if i == off {
+        assert(q0 == fadd(start, i));
+        assert(all_xinv_nonzero(q.skip(1))) by { assert forall|k: int| 0 <= k < q.skip(1).len() implies 0 < (#[trigger] q.skip(1)[k]).xinv < P && q.skip(1)[k].index < P by { assert(q.skip(1)[k] == q[k + 1]); } }
+        lemma_coset_walk_xinv(q.skip(1), w, start, group, i + 1, cs, elems.push(q[0].y), fmul(q[0].xinv, group[i as int]));
+    } else {
+        assert(q0 != fadd(start, i));
+        if w.len() > 0 {
+            lemma_coset_first_xinv(q, w.skip(1), cs, group, i + 1, elems.push(w[0]), xinv);
+        }
+    }
+}
+
+/// a layer maps n queries to at most n queries / n cosets, every new x_inv is non-zero and every index shrinks
+pub proof fn lemma_layer_walk_shape(q: Seq<FQ>, w: Seq<nat>, cs: nat, group: Seq<nat>, e: nat, acc: LayerOut)
+    requires cs_ok(cs), all_xinv_nonzero(q), group_nonzero(group), all_xinv_nonzero(acc.next), acc.indices.len() == acc.next.len(), acc.yvals.len() == cs * acc.next.len()
+    ensures
+        layer_walk(q, w, cs, group, e, acc) is Some ==> ({
+            let o = layer_walk(q, w, cs, group, e, acc)->Some_0;
+            &&& o.next.len() <= acc.next.len() + q.len()
+            &&& o.indices.len() == o.next.len()
+            &&& o.yvals.len() == cs * o.next.len()
+            &&& all_xinv_nonzero(o.next)
+        }),
+    decreases q.len()
+{
+    if q.len() > 0 {
+        let ci = q[0].index / cs;
+        let cw = coset_walk(q, w, fmul(ci, cs), group, 0, cs, Seq::<nat>::empty(), 0);
+        if cw is Some {
+            let o = cw->Some_0;
+            if o.q.len() < q.len() {
+                lemma_coset_first_xinv(q, w, cs, group, 0, Seq::<nat>::empty(), 0);
+                lemma_coset_walk_shape(q, w, fmul(ci, cs), group, 0, cs, Seq::<nat>::empty(), 0);
+                lemma_pow_nonzero(o.xinv, cs);
+                let nq = FQ { index: ci, y: fold_spec(log2_cs(cs), o.elems, e, o.xinv), xinv: pow_mod(o.xinv, cs) };
+                let acc2 = LayerOut { next: acc.next.push(nq), indices: acc.indices.push(ci), yvals: acc.yvals + o.elems, w: acc.w };
+                assert(ci <= q[0].index) by(nonlinear_arith) requires ci == q[0].index / cs, cs >= 1;
+                assert(all_xinv_nonzero(acc2.next)) by {
+                    assert forall|k: int| 0 <= k < acc2.next.len() implies 0 < (#[trigger] acc2.next[k]).xinv < P && acc2.next[k].index < P by {
+                        if k < acc.next.len() { assert(acc2.next[k] == acc.next[k]); } else { assert(acc2.next[k] == nq); }
+                    }
+                }
+                assert(cs * (acc.next.len() + 1) == cs * acc.next.len() + cs) by(nonlinear_arith);
+                lemma_layer_walk_shape(o.q, o.w, cs, group, e, acc2);
+            }
+        }
+    }
+}
+
+//@repo crates/fri/src/layer.rs fn compute_coset_elements props=C06,C07 rules=H_drain_query,H_drain_witness
+#[verifier::loop_isolation(false)]
+pub fn compute_coset_elements(
+    queries: &mut Vec<FriLayerQuery>,
+    sibling_witness: &mut Vec<Felt>,
+    coset_size: Felt,
+    coset_start_index: Felt,
+    fri_group: &[Felt],
+) -> (r: Result<(Vec<Felt>, Felt), FriError>)
+    requires
+        cs_ok(coset_size@),             // [C18:coset-size-in-2-4-8-16]
+        fri_group@.len() >= 16,         // [C18:fri-group-has-16-elements]
+    ensures
+        r.is_ok() <==> coset_walk(fqs(old(queries)@), fv(old(sibling_witness)@), coset_start_index@, fv(fri_group@), 0, coset_size@, Seq::<nat>::empty(), 0) is Some, // [C07,C18:coset-errs-exactly-when-sibling-leaves-run-out]
+        r.is_ok() ==> ({
+            let o = coset_walk(fqs(old(queries)@), fv(old(sibling_witness)@), coset_start_index@, fv(fri_group@), 0, coset_size@, Seq::<nat>::empty(), 0)->Some_0;
+            &&& fv(r->Ok_0.0@) == o.elems
+            &&& r->Ok_0.1@ == o.xinv
+            &&& fqs(final(queries)@) == o.q
+            &&& fv(final(sibling_witness)@) == o.w
+        }), // [C06,C07:coset-elements-from-matching-queries-else-sibling-leaves-in-order]
+{
+    let mut coset_elements/*+*/: Vec<Felt>/*-*/ = Vec::new();
+    let mut coset_x_inv = Felt::ZERO;
+    let ghost csf = coset_size@;
+    let coset_size: usize = coset_size.to_biguint().try_into().unwrap();
+    assert(coset_size as nat == csf);
+    let ghost goal = coset_walk(fqs(old(queries)@), fv(old(sibling_witness)@), coset_start_index@, fv(fri_group@), 0, coset_size as nat, Seq::<nat>::empty(), 0);
+    proof { assert(fv(coset_elements@) =~= Seq::<nat>::empty()); }
+    for index in 0..coset_size
+        invariant
+            cs_ok(coset_size as nat), fri_group@.len() >= 16, coset_size as nat == csf,
+            goal == coset_walk(fqs(old(queries)@), fv(old(sibling_witness)@), coset_start_index@, fv(fri_group@), 0, csf, Seq::<nat>::empty(), 0),
+            goal == coset_walk(fqs(queries@), fv(sibling_witness@), coset_start_index@, fv(fri_group@), index as nat, coset_size as nat, fv(coset_elements@), coset_x_inv@),
+    {
+        let ghost q_before = fqs(queries@);
+        let ghost w_before = fv(sibling_witness@);
+        let ghost e_before = fv(coset_elements@);
+        let q = queries.first();
+        proof { lemma_small_mod(index as nat, P); }
+        if q.is_some() && q.unwrap().index == coset_start_index + Felt::from(index) {
+            let query: Vec<FriLayerQuery> = crate::hoist::drain_first(queries);
+            coset_elements.push(query[0].y_value);
+            coset_x_inv = query[0].x_inv_value * fri_group.get(index).unwrap();
+            proof {
+                assert(fqs(queries@) =~= q_before.skip(1));
+                assert(fv(coset_elements@) =~= e_before.push(q_before[0].y));
+            }
+        } else {
+            proof {
+                assert(!(q_before.len() > 0 && q_before[0].index == fadd(coset_start_index@, index as nat)));
+                assert(w_before.len() == sibling_witness@.len());
+            }
+            if sibling_witness.is_empty() {
+                proof {
+                    assert(w_before.len() == 0);
+                    assert((index as nat) < (coset_size as nat));
+                    assert(coset_walk(q_before, w_before, coset_start_index@, fv(fri_group@), index as nat, coset_size as nat, e_before, coset_x_inv@) is None);
+                }
+                return Err(FriError::WitnessTooShort);
+            }
+            let withness: Vec<Felt> = crate::hoist::drain_first(sibling_witness);
+            coset_elements.push(withness[0]);
+            proof {
+                assert(fv(sibling_witness@) =~= w_before.skip(1));
+                assert(fv(coset_elements@) =~= e_before.push(w_before[0]));
+            }
+        }
+    }
+
+    Ok((coset_elements, coset_x_inv))
+}
+//@end
+
+//@repo crates/fri/src/layer.rs fn compute_next_layer props=C06,C07 rules=H_extend_iter_coset
+pub fn compute_next_layer(
+    queries: &mut Vec<FriLayerQuery>,
+    sibling_witness: &mut Vec<Felt>,
+    params: FriLayerComputationParams,
+) -> (r: Result<(Vec<FriLayerQuery>, Vec<Felt>, Vec<Felt>), FriError>)
+    requires
+        cs_ok(params.coset_size@),           // [C18:coset-size-in-2-4-8-16]
+        params.fri_group@.len() >= 16,       // [C18:fri-group-has-16-elements]
+    ensures
+        r.is_ok() <==> layer_spec(fqs(old(queries)@), fv(old(sibling_witness)@), params.coset_size@, fv(params.fri_group@), params.eval_point@) is Some, // [C07,C18:layer-errs-exactly-when-sibling-leaves-run-out]
+        r.is_ok() ==> ({
+            let o = layer_spec(fqs(old(queries)@), fv(old(sibling_witness)@), params.coset_size@, fv(params.fri_group@), params.eval_point@)->Some_0;
+            &&& fqs(r->Ok_0.0@) == o.next
+            &&& fv(r->Ok_0.1@) == o.indices
+            &&& fv(r->Ok_0.2@) == o.yvals
+            &&& fv(final(sibling_witness)@) == o.w
+            &&& final(queries)@.len() == 0
+        }), // [C06,C07:next-layer-is-fold-of-each-gathered-coset-and-all-coset-rows-are-returned-for-decommitment]
+{
+    let mut next_queries/*+*/: Vec<FriLayerQuery>/*-*/ = Vec::new();
+    let mut verify_indices/*+*/: Vec<Felt>/*-*/ = Vec::new();
+    let mut verify_y_values/*+*/: Vec<Felt>/*-*/ = Vec::new();
+
+    let coset_size = params.coset_size;
+    let ghost goal = layer_spec(fqs(old(queries)@), fv(old(sibling_witness)@), params.coset_size@, fv(params.fri_group@), params.eval_point@);
+    let ghost cs = params.coset_size@;
+    let ghost grp = fv(params.fri_group@);
+    proof {
+        assert(fqs(next_queries@) =~= Seq::<FQ>::empty());
+        assert(fv(verify_indices@) =~= Seq::<nat>::empty());
+        assert(fv(verify_y_values@) =~= Seq::<nat>::empty());
+    }
+
+    while !queries.is_empty()
+        invariant
+            cs_ok(cs), cs == params.coset_size@, coset_size == params.coset_size, grp == fv(params.fri_group@), params.fri_group@.len() >= 16,
+            goal == layer_spec(fqs(old(queries)@), fv(old(sibling_witness)@), params.coset_size@, fv(params.fri_group@), params.eval_point@),
+            goal == layer_walk(fqs(queries@), fv(sibling_witness@), cs, grp, params.eval_point@,
+                LayerOut { next: fqs(next_queries@), indices: fv(verify_indices@), yvals: fv(verify_y_values@), w: Seq::empty() }),
+        decreases queries@.len(), // [C17:layer-loop-consumes-a-query-per-iteration]
+    {
+        let ghost q0 = fqs(queries@);
+        let ghost w0 = fv(sibling_witness@);
+        let ghost acc0 = LayerOut { next: fqs(next_queries@), indices: fv(verify_indices@), yvals: fv(verify_y_values@), w: Seq::<nat>::empty() };
+        let query_uint = queries.first().unwrap().index.to_biguint();
+        let coset_size_uint = coset_size.to_biguint();
+        let coset_index =
+            Felt::from_bytes_be_slice((query_uint / coset_size_uint).to_bytes_be().as_slice());
+        proof {
+            let qi = q0[0].index;
+            assert(qi / cs <= qi) by(nonlinear_arith) requires cs >= 1;
+            lemma_small_mod(qi / cs, P);
+            assert(coset_index@ == qi / cs);
+            lemma_coset_consumes(q0, w0, cs, grp, 0, Seq::<nat>::empty(), 0);
+            lemma_coset_walk_shape(q0, w0, fmul(qi / cs, cs), grp, 0, cs, Seq::<nat>::empty(), 0);
+        }
+
+        verify_indices.push(coset_index);
+
+        proof {
+            assert(fv(verify_indices@) =~= acc0.indices.push(q0[0].index / cs));
+            lemma_fundamental_div_mod(q0[0].index as int, cs as int);
+            assert((q0[0].index / cs) * cs == cs * (q0[0].index / cs)) by(nonlinear_arith);
+            lemma_small_mod((q0[0].index / cs) * cs, P);
+        }
+        let (coset_elements, coset_x_inv) = compute_coset_elements(
+            queries,
+            sibling_witness,
+            coset_size,
+            coset_index * coset_size,
+            &params.fri_group,
+        )?;
+        crate::hoist::extend_from_iter(&mut verify_y_values, &coset_elements);
+
+        let fri_formula_res =
+            fri_formula(coset_elements, params.eval_point, coset_x_inv, coset_size)?;
+
+        let next_x_inv = coset_x_inv.pow_felt(&params.coset_size);
+        next_queries.push(FriLayerQuery {
+            index: coset_index,
+            y_value: fri_formula_res,
+            x_inv_value: next_x_inv,
+        });
+        proof {
+            let o = coset_walk(q0, w0, fmul(q0[0].index / cs, cs), grp, 0, cs, Seq::<nat>::empty(), 0)->Some_0;
+            assert(fqs(next_queries@) =~= acc0.next.push(FQ { index: q0[0].index / cs, y: fold_spec(log2_cs(cs), o.elems, params.eval_point@, o.xinv), xinv: pow_mod(o.xinv, cs) }));
+            assert(fv(verify_indices@) =~= acc0.indices.push(q0[0].index / cs));
+            assert(fv(verify_y_values@) =~= acc0.yvals + o.elems);
+        }
+    }
+
+    Ok((next_queries, verify_indices, verify_y_values))
+}
+//@end
 } // verus!
 } // mod layer
